@@ -248,6 +248,7 @@ def c05(ctx):
     if e is None:
         return
     Q.r_p2_init(ctx, db, e, roles)
+    Q.r_middle_marker(ctx, db, e, roles)
     n = Q.r_p2_step(ctx, db, e, roles)
     ctx.floor("abstract paths of Quantile::add (>= 5 observations) compared with the specification", n, 100)
 
@@ -330,6 +331,7 @@ def c12(ctx):
             n += H.r_from_ranges(ctx, db, e, ln, consts)
         H.r_const_width(ctx, db, e, ln, consts)
         H.r_const_width_monotone(ctx, db, e, ln, consts)
+        H.r_accessors(ctx, db, e, ln, consts)
     dba, hs = hist_const_types(ctx)
     for e, ln, consts in hs:
         if ln <= 4:
@@ -637,6 +639,23 @@ TB = ("Trusted: rustc name resolution, type check, const evaluation and MIR cons
       "the library summaries in analysis/summaries.py (DESIGN.md section 3.4); the IEEE-754 identities of DESIGN.md section 2.3; ")
 TECH = "static analysis: abstract interpretation of /repo's MIR (partial evaluation over abstract data) + "
 
+L0_FLOORS = {"C01": (15, 3), "C03": (22, 2), "C04": (150, 0), "C08": (18, 4), "C09": (23, 0), "C10": (20, 21)}
+
+
+def with_law_floors(pid, fn):
+    def run(ctx):
+        fn(ctx)
+        l0 = sum(1 for o in ctx.obs if o.key.startswith("L0:") and o.status != "inc")
+        l8 = sum(1 for o in ctx.obs if o.key.startswith("L8:") and o.status != "inc")
+        ctx.floor("definition identities (L0) actually compared", l0, L0_FLOORS[pid][0])
+        if L0_FLOORS[pid][1]:
+            ctx.floor("accessor relations (L8) actually compared", l8, L0_FLOORS[pid][1])
+    return run
+
+
+for _pid in L0_FLOORS:
+    pass
+
 PROPS = {
     "C01": {"run": c01, "level": "other", "design_ref": "DESIGN.md 5 C01",
             "technique": TECH + "count/dimension/sign/shift-degree domains, exact rational identity testing of add/merge laws and of the definitions on abstract streams",
@@ -721,3 +740,6 @@ PROPS = {
             "explanation": "Proves for 40+ FromIterator/Extend impls (value, reference, pair), all Estimate impls and the harness concatenate! shapes: the result state is node-identical to add() in a loop for 0..2 (3 thorough) abstract items and the input iterator is exhausted; estimate() is exactly the headline accessor; concatenate! builds fields with their defaults, forwards x once to every field, and each statistic is exactly the underlying accessor; Default = new.",
             "level_text": "Identical effect summaries on abstract data imply bit-identical results.", "level_note": TB + "determinism of IEEE arithmetic; loops are item-uniform (checked up to 2-3 items)."},
 }
+
+for _pid in L0_FLOORS:
+    PROPS[_pid]["run"] = with_law_floors(_pid, PROPS[_pid]["run"])
